@@ -86,7 +86,7 @@ def project(ir):
     return {"doc": wsn(ir.get("doc") or ""), "params": params, "ret": r}
 
 
-_DEFAULT_TAIL = re.compile(r"[.,]?\s*Defaults to .*$", re.S)
+_DEFAULT_TAIL = re.compile(r"\s*Defaults to .*$", re.S)
 
 
 def strip_default_sentence(doc):
@@ -100,7 +100,8 @@ def strip_default_sentence(doc):
 
 
 def prose_ok(inp, out, allow_default_sentence=True):
-    """inp/out: whitespace-normalised prose or None.  Accept p, p+'.', optionally followed by a default sentence."""
+    """inp/out: whitespace-normalised prose or None.  Accept p, or p + '.' when p has no final punctuation,
+    optionally followed by a 'Defaults to ...' sentence."""
     if out is not None and allow_default_sentence:
         out, _ = strip_default_sentence(out)
         out = out or None
@@ -111,8 +112,6 @@ def prose_ok(inp, out, allow_default_sentence=True):
     if out == inp:
         return True
     if inp[-1] not in ".," and out == inp + ".":
-        return True
-    if inp[-1] in ".," and out == inp[:-1] + ".":
         return True
     return False
 
